@@ -1,4 +1,6 @@
 #!/bin/bash
+# evidence of runs against a modified tree goes to a scratch directory, never to /verif/evidence
+export VERIF_EVIDENCE_DIR=${VERIF_EVIDENCE_DIR:-/verif/out/evidence-scratch}
 # usage: eval_refactor.sh <worktree> <id> : store a behaviour-preserving refactoring as a negative seed and run
 # ALL 17 quick checks against it (expected: quiet, or at most no-failing-input-found where an internal count changed)
 W=$1; ID=$2; D=/verif/seeded/$ID; mkdir -p $D
